@@ -5,6 +5,7 @@ python3 "$ROOT/tools/c16_matrix.py" "$tier"; _r=$?; [ $_r -gt $_rc ] && _rc=$_r
 _parts="k1"
 mkdir -p "$ROOT/target/transcripts16"
 _built=""
+_lib_broken=""
 # the configurations have their own target directories: build them concurrently
 _cfgs="rel relcheck stdmin nostd nostdcheck"
 # the true dev profile (opt-level 0) is slow for the reference model: thorough tier only
@@ -21,7 +22,22 @@ for cfg in $_cfgs; do
   else
     # a configuration that does not build is K1's finding when it is the library's fault
     echo "C16 K2: configuration $cfg not built; transcript comparison skips it" >&2
-    [ $_rc -lt 1 ] && grep -q "could not compile .num-bigint" "$ROOT/target/build-$cfg.log" || { [ $_rc -lt 2 ] && _rc=2; }
+    if grep -q "could not compile .num-bigint" "$ROOT/target/build-$cfg.log"; then
+      # the library itself does not compile in this configuration: that is the finding (K1 reports the feature
+      # subset too when it is part of its lattice), not a machinery failure
+      _lib_broken="$_lib_broken $cfg"
+      _why=$(grep -m1 -E "^error" "$ROOT/target/build-$cfg.log" | cut -c1-200 | tr '"' "'")
+      _rp="replays/C16-build-$cfg.json"
+      python3 - "$ROOT/$_rp" "$cfg" "$_why" "$tier" <<'PY'
+import json,sys
+json.dump({"property":"C16","tier":sys.argv[4],"config":"matrix","shell_cmd":"./check C16 "+sys.argv[4],
+  "violation":{"key":"build:%s"%sys.argv[2],"what":"the crate does not compile in this configuration","first_error":sys.argv[3]}},open(sys.argv[1],"w"),indent=1)
+PY
+      echo "VIOLATION property=C16 replay=$_rp  # num-bigint does not compile in configuration $cfg: $_why"
+      [ $_rc -lt 1 ] && _rc=1
+    else
+      [ $_rc -lt 2 ] && _rc=2
+    fi
   fi
 done
 # the complete C06 (text / radix conversion) space in the no_std build: the feature-conditional buffer
@@ -31,7 +47,7 @@ if [ -x "$(bindir nostd)/c06" ] && [ "$(cat "$ROOT/target/c16-build-nostd.rc" 2>
   [ $_r -gt $_rc ] && _rc=$_r
   _parts="$_parts c06-nostd"
 else
-  [ $_rc -lt 2 ] && _rc=2
+  case " $_lib_broken " in *" nostd "*) : ;; *) [ $_rc -lt 2 ] && _rc=2 ;; esac
 fi
 # the documented-failure set (must panic / must be None / must succeed) in every profile and std/no_std
 # configuration: a failure behaviour that differs between configurations is a result that differs
@@ -42,7 +58,7 @@ for cfg in $_built; do
     [ $_r -gt $_rc ] && _rc=$_r
     _parts="$_parts c14-$cfg"
   else
-    [ $_rc -lt 2 ] && _rc=2
+    case " $_lib_broken " in *" $cfg "*) : ;; *) [ $_rc -lt 2 ] && _rc=2 ;; esac
   fi
 done
 # byte-equality of the transcripts (first differing line is the replay)
